@@ -27,7 +27,8 @@ Key(ev) == IF Has(ev, "i2") THEN ev.p \o "_" \o ToString(ev.i1) \o "_" \o ToStri
            ELSE IF Has(ev, "i1") THEN ev.p \o "_" \o ToString(ev.i1) ELSE ev.p
 SetKey(ev) == IF Has(ev, "i2") THEN Getter(ev.p) \o "_" \o ToString(ev.i1) \o "_" \o ToString(ev.i2) ELSE Getter(ev.p)
 
-Close4(a, b) == IF IsFin(a) /\ IsFin(b) THEN RelClose(a, b, One, PowTwo(50)) ELSE a.k = b.k
+\* (tan(beta) is stored as a ratio of two numbers: a denormal value reads back to a few denormal quanta 2^-1074)
+Close4(a, b) == IF IsFin(a) /\ IsFin(b) THEN RelClose(a, b, One, PowTwo(50)) \/ Le(Abs(Sub(a, b)), PowTwo(-1070)) ELSE a.k = b.k
 
 Min(a, b) == IF a < b THEN a ELSE b
 
